@@ -114,7 +114,7 @@ def encode(d, v, ctx, o=DEFAULT_OPTS):
     E = lambda e, x: encode(e, x, ctx, o)   # noqa: E731
     if k == "leaf":
         return enc_leaf(d[1], v, o)
-    if k in ("list", "seq", "mutseq", "tuplevar", "deque", "set", "frozenset", "abcset", "mutset", "pep585list",
+    if k in ("list", "seq", "mutseq", "tuplevar", "deque", "set", "frozenset", "abcset", "mutset", "pep585list", "barelist",
              "collection"):
         return [E(d[1], x) for x in v]
     if k in ("tuple", "pep585tuple"):
@@ -126,7 +126,7 @@ def encode(d, v, ctx, o=DEFAULT_OPTS):
         out += [E(mid, x) for x in v[len(pre):n - len(post)]]
         out += [E(e, x) for e, x in zip(post, v[n - len(post):])] if post else []
         return out
-    if k in ("dict", "mapping", "mutmapping", "ordered", "defaultdict", "mproxy", "pep585dict"):
+    if k in ("dict", "mapping", "mutmapping", "ordered", "defaultdict", "mproxy", "pep585dict", "baredict"):
         return {E(d[1], kk): E(d[2], x) for kk, x in v.items()}
     if k == "chain":
         return [{E(d[1], kk): E(d[2], x) for kk, x in m.items()} for m in v.maps]
@@ -395,7 +395,7 @@ def decode(d, x, ctx, o=DEFAULT_OPTS):
     D = lambda e, y: decode(e, y, ctx, o)   # noqa: E731
     if k == "leaf":
         return dec_leaf(d[1], x, o)
-    if k in ("list", "seq", "mutseq", "pep585list", "collection"):
+    if k in ("list", "seq", "mutseq", "pep585list", "barelist", "collection"):
         return [D(d[1], y) for y in _iter_elems(x, k)]
     if k == "tuplevar":
         return tuple(D(d[1], y) for y in _iter_elems(x, k))
@@ -432,7 +432,7 @@ def decode(d, x, ctx, o=DEFAULT_OPTS):
         out += [D(mid, y) for y in x[len(pre):n - len(post)]]
         out += [D(e, x[n - len(post) + i]) for i, e in enumerate(post)]
         return tuple(out)
-    if k in ("dict", "mapping", "mutmapping", "pep585dict"):
+    if k in ("dict", "mapping", "mutmapping", "pep585dict", "baredict"):
         return _ctor(dict, [(D(d[1], kk), D(d[2], y)) for kk, y in _items(x, k)])
     if k == "ordered":
         return collections.OrderedDict(_ctor(dict, [(D(d[1], kk), D(d[2], y)) for kk, y in _items(x, k)]))
@@ -652,10 +652,10 @@ def decode_union(d, x, ctx, o):
 # conformance and equality
 # ---------------------------------------------------------------------------------------
 CANON = {
-    "list": list, "seq": list, "mutseq": list, "pep585list": list, "collection": list, "tuplevar": tuple,
+    "list": list, "seq": list, "mutseq": list, "pep585list": list, "barelist": list, "collection": list, "tuplevar": tuple,
     "deque": collections.deque,
     "set": set, "abcset": set, "mutset": set, "frozenset": frozenset, "tuple": tuple, "pep585tuple": tuple,
-    "tupleu": tuple, "dict": dict, "mapping": dict, "mutmapping": dict, "pep585dict": dict,
+    "tupleu": tuple, "dict": dict, "mapping": dict, "mutmapping": dict, "pep585dict": dict, "baredict": dict,
     "ordered": collections.OrderedDict, "defaultdict": collections.defaultdict, "chain": collections.ChainMap,
     "mproxy": types.MappingProxyType, "counter": collections.Counter, "td": dict,
 }
@@ -693,7 +693,7 @@ def conforms(d, v, ctx):
     if k in CANON and k != "td":
         if type(v) is not CANON[k]:
             return False
-    if k in ("list", "seq", "mutseq", "pep585list", "collection", "tuplevar", "deque", "set", "abcset", "mutset",
+    if k in ("list", "seq", "mutseq", "pep585list", "barelist", "collection", "tuplevar", "deque", "set", "abcset", "mutset",
              "frozenset"):
         return all(C(d[1], x) for x in v)
     if k in ("tuple", "pep585tuple"):
@@ -705,7 +705,7 @@ def conforms(d, v, ctx):
             return False
         return (all(C(e, x) for e, x in zip(pre, v)) and all(C(mid, x) for x in v[len(pre):n - len(post)])
                 and all(C(e, x) for e, x in zip(post, v[n - len(post):])))
-    if k in ("dict", "mapping", "mutmapping", "pep585dict", "ordered", "defaultdict", "mproxy"):
+    if k in ("dict", "mapping", "mutmapping", "pep585dict", "baredict", "ordered", "defaultdict", "mproxy"):
         return all(C(d[1], kk) and C(d[2], x) for kk, x in v.items())
     if k == "chain":
         return all(type(m) is dict and all(C(d[1], kk) and C(d[2], x) for kk, x in m.items()) for m in v.maps)
